@@ -8,7 +8,7 @@ int g_nhist;
 const char* opc_name[NOPC] = {"lock+rmw",  "lock+rmw+unlock()", "try_lock",  "try_lock_for", "try_lock_until", "load",
                               "store",     "operator=",         "modify",    "modify(ret)",  "lock_shared",
                               "try_lock_shared", "try_lock_shared_for", "try_lock_shared_until", "const lock()", "read",
-                              "read(ret)", "modify_detach",     "modify_async", "exchange",   "compare_exchange"};
+                              "read(ret)", "modify_detach",     "modify_async", "exchange",   "compare_exchange", "operator T()"};
 
 // ---------------------------------------------------------------- linearizability
 static char g_linmsg[400];
@@ -200,6 +200,18 @@ void add_load_store_ops(Instance& in)
     };
 }
 
+template<class W>
+void add_convert_op(Instance& in)
+{
+    in.ops[CONVERT] = [](void* p, int) {
+        const W& w = *(const W*)p;
+        int hi = h_begin(CONVERT);
+        Pair v = w;  // implicit conversion operator
+        MC_CHECK(v.a == v.b, "torn-read", "operator T() returned a half-written value (a=%d b=%d)", v.a, v.b);
+        h_end(hi, HK_READ, 0, v.a);
+    };
+}
+
 template<class W, class M, bool with_const_lock>
 void add_shared_ops(Instance& in, bool enabled)
 {
@@ -318,6 +330,7 @@ void add_for_mutex(std::vector<Instance>& out, const char* mn, bool exclusive_on
         in.shared_capable = shared_capable_v<M>;
         add_shared_ops<W, M, false>(in, true);
         add_load_store_ops<W>(in);
+        add_convert_op<W>(in);
         in.ops[MODIFY] = [](void* p, int) {
             W& w = *(W*)p;
             int hi = h_begin(MODIFY);
@@ -423,6 +436,7 @@ std::vector<Instance> all_instances()
         Instance in;
         basic<W>(in, "atomic_guarded<Pair>");
         add_load_store_ops<W>(in);
+        add_convert_op<W>(in);
         in.ops[EXCHANGE] = [](void* p, int k) {
             W& w = *(W*)p;
             int hi = h_begin(EXCHANGE);
